@@ -109,7 +109,8 @@ class SStr:
             return sbool(member_term(*comp), comp)
         return sbool(z3.Not(self.eq_term(o)))
 
-    __hash__ = None
+    def __hash__(self):
+        raise Unmodelled("hash() of a symbolic value (dict/set key)")
 
     def lower(self):
         out = []
@@ -358,7 +359,8 @@ class SBytes:
             return True
         return sbool(z3.Not(self.eq_term(o)))
 
-    __hash__ = None
+    def __hash__(self):
+        raise Unmodelled("hash() of a symbolic value (dict/set key)")
 
     def decode(self, *a, **k):
         raise Unmodelled("SBytes.decode")
@@ -420,7 +422,8 @@ class SBlob:
     def __radd__(self, o):
         return SRope([o]) + self
 
-    __hash__ = None
+    def __hash__(self):
+        raise Unmodelled("hash() of a symbolic value (dict/set key)")
 
     def __repr__(self):
         return f"SBlob({self.name},{self.start},{self.length})"
@@ -471,7 +474,8 @@ class SRope:
     def __getitem__(self, i):
         raise Unmodelled("rope indexing")
 
-    __hash__ = None
+    def __hash__(self):
+        raise Unmodelled("hash() of a symbolic value (dict/set key)")
 
     def __repr__(self):
         return f"SRope({self.segs})"
@@ -505,6 +509,12 @@ class SChoice:
     def lower(self):
         return SChoice([o.lower() if isinstance(o, str) else o for o in self.options], self.t)
 
+    def __getitem__(self, i):
+        return SChoice([o[i] for o in self.options], self.t)
+
+    def __len__(self):
+        return len(self.pick())
+
     def pick(self):
         """Fork: return the concrete option."""
         for i, o in enumerate(self.options[:-1]):
@@ -515,7 +525,8 @@ class SChoice:
     def __bool__(self):
         return bool(self.pick())
 
-    __hash__ = None
+    def __hash__(self):
+        raise Unmodelled("hash() of a symbolic value (dict/set key)")
 
     def __format__(self, spec):
         return format(self.pick(), spec)
@@ -551,7 +562,8 @@ class SEnum:
                 return o
         return self.members[-1]
 
-    __hash__ = None
+    def __hash__(self):
+        raise Unmodelled("hash() of a symbolic value (dict/set key)")
 
     def __format__(self, spec):
         return "<enum>"
